@@ -77,6 +77,7 @@ Fixpoint mp4_parse_atom (fuel : nat) (f : list Z) (pos level : Z) {struct fuel} 
   match fuel with
   | O => Raise EOutOfFuel
   | S n =>
+    if level >? 64 then Raise EMutagen else       (* "atoms nested too deeply" *)
     let h := mp4_rd f pos 8 in
     if zlen h <? 8 then Raise EMutagen else
     let name := zdrop 4 h in
@@ -202,21 +203,22 @@ Definition mp4_find_padding (meta : mp4_atom) : option mp4_atom :=
   end.
 
 (* ------------------------------------------------------------------ __update_parents *)
+(* read_full raises IOError on a short read (-> mutagen.mp4.error); cdata.error -> MP4MetadataError *)
 Definition mp4_update_parent (delta : Z) (g : list Z) (aoff : Z) : result (list Z) :=
   let s4 := mp4_rd g aoff 4 in
-  if zlen s4 <? 4 then Raise EStruct else
+  if zlen s4 <? 4 then Raise EMutagen else
   let size := be_decode s4 in
   if size =? 0 then Ok g        (* extends to the end of the file, nothing to update *)
   else if size =? 1 then
-    (* size = cdata.ulonglong_be(fileobj.read(12)[4:]) *)
-    let s8 := zdrop 4 (mp4_rd g (aoff + 4) 12) in
-    if negb (zlen s8 =? 8) then Raise EStruct else
-    let v := be_decode s8 + delta in
-    if (v <? 0) || (MP4_U64 <=? v) then Raise EStruct
+    (* size = cdata.ulonglong_be(read_full(fileobj, 12)[4:]) *)
+    let s12 := mp4_rd g (aoff + 4) 12 in
+    if zlen s12 <? 12 then Raise EMutagen else
+    let v := be_decode (zdrop 4 s12) + delta in
+    if (v <? 0) || (MP4_U64 <=? v) then Raise EMutagen
     else Ok (patch g (aoff + 8) (be_encode 8 v))
   else
     let v := size + delta in
-    if (v <? 0) || (MP4_U32 <=? v) then Raise EStruct
+    if (v <? 0) || (MP4_U32 <=? v) then Raise EMutagen
     else Ok (patch g aoff (be_encode 4 v)).
 
 Fixpoint mp4_fold (step : list Z -> Z -> result (list Z)) (g : list Z) (l : list Z) : result (list Z) :=
@@ -236,34 +238,42 @@ Definition mp4_pack (w : nat) (l : list Z) : list Z := flat_map (be_encode w) l.
 Definition mp4_shift (offset delta o : Z) : Z := if offset <? o then o + delta else o.   (* (0, delta)[offset < o] *)
 Definition mp4_moved (offset delta aoff : Z) : Z := if aoff >? offset then aoff + delta else aoff.
 
-(* file.read(n): n < 0 reads to the end *)
-Definition mp4_read (g : list Z) (p n : Z) : list Z := if n <? 0 then zdrop p g else mp4_rd g p n.
+(* read_full(fileobj, n): ValueError for n < 0, IOError (-> mutagen.mp4.error) on a short read *)
+Definition mp4_read_full (g : list Z) (p n : Z) : result (list Z) :=
+  if n <? 0 then Raise EValue else
+  let d := mp4_rd g p n in
+  if zlen d <? n then Raise EMutagen else Ok d.
 
 Definition mp4_update_table (w : nat) (delta offset : Z) (g : list Z) (a : mp4_atom) : result (list Z) :=
   let ao := mp4_moved offset delta (ma_off a) in
-  let data := mp4_read g (ao + 12) (ma_len a - 12) in
-  if zlen (ztake 4 data) <? 4 then Raise EStruct else
-  let cnt := be_decode (ztake 4 data) in
-  let body := zdrop 4 data in
-  if negb (zlen body =? Z.of_nat w * cnt) then Raise EMutagen else
-  let offs := map (mp4_shift offset delta) (mp4_unpack (Z.of_nat w) (Z.to_nat cnt) body) in
-  if forallb (fun o => (0 <=? o) && (o <? 256 ^ Z.of_nat w)) offs
-  then Ok (patch g (ao + 16) (mp4_pack w offs))
-  else Raise EMutagen.
+  match mp4_read_full g (ao + 12) (ma_len a - 12) with
+  | Raise e => Raise e
+  | Ok data =>
+    if zlen (ztake 4 data) <? 4 then Raise EStruct else
+    let cnt := be_decode (ztake 4 data) in
+    let body := zdrop 4 data in
+    if negb (zlen body =? Z.of_nat w * cnt) then Raise EMutagen else
+    let offs := map (mp4_shift offset delta) (mp4_unpack (Z.of_nat w) (Z.to_nat cnt) body) in
+    if forallb (fun o => (0 <=? o) && (o <? 256 ^ Z.of_nat w)) offs
+    then Ok (patch g (ao + 16) (mp4_pack w offs))
+    else Raise EMutagen
+  end.
 
 Definition mp4_update_tfhd (delta offset : Z) (g : list Z) (a : mp4_atom) : result (list Z) :=
   let ao := mp4_moved offset delta (ma_off a) in
-  let data := mp4_read g (ao + 9) (ma_len a - 9) in
-  if zlen (ztake 3 data) <? 3 then Raise EStruct else
-  let flags := be_decode (ztake 3 data) in
-  if Z.odd flags then
-    let b8 := zslice 7 15 data in
-    if negb (zlen b8 =? 8) then Raise EStruct else
-    let o := be_decode b8 in
-    let o' := if o >? offset then o + delta else o in
-    if (o' <? 0) || (MP4_U64 <=? o') then Raise EStruct
-    else Ok (patch g (ao + 16) (be_encode 8 o'))
-  else Ok g.
+  match mp4_read_full g (ao + 9) (ma_len a - 9) with
+  | Raise e => Raise e
+  | Ok data =>
+    if zlen (ztake 3 data) <? 3 then Raise EStruct else
+    let flags := be_decode (ztake 3 data) in
+    if Z.odd flags then
+      if zlen data <? 15 then Raise EMutagen else     (* "truncated atom" *)
+      let o := be_decode (zslice 7 15 data) in
+      let o' := if o >? offset then o + delta else o in
+      if (o' <? 0) || (MP4_U64 <=? o') then Raise EStruct
+      else Ok (patch g (ao + 16) (be_encode 8 o'))
+    else Ok g
+  end.
 
 Fixpoint mp4_fold_atoms (step : list Z -> mp4_atom -> result (list Z)) (g : list Z) (l : list mp4_atom)
   : result (list Z) :=
@@ -329,7 +339,7 @@ Definition mp4_save_existing (f : list Z) (atoms path : list mp4_atom) (ilst_dat
     let padding_size := length - (zlen ilst_data + 8) in
     let data := ilst_data ++ mp4_padding_atom cb padding_size content_size in
     match mp4_resize_write f offset length data with
-    | Raise e => Raise e
+    | Raise _ => Raise EMutagen        (* except ValueError: raise MP4MetadataError("invalid atom size") *)
     | Ok f1 =>
       let delta := zlen data - length in
       match mp4_update_parents delta f1 (map ma_off (removelast path)) with
@@ -451,6 +461,17 @@ Fixpoint mp4_forest_ok (f : list Z) (top : bool) (l : list mp4_atom) (p e : Z) :
   | k :: r => (ma_off k =? p) && mp4_atom_ok f top k && mp4_forest_ok f top r (p + ma_len k) e
   end.
 
+(* nesting depth: mutagen's reader gives up beyond level 64 *)
+Fixpoint mp4_height (a : mp4_atom) : Z :=
+  1 + match a with
+      | MAtom _ _ _ _ None => 0
+      | MAtom _ _ _ _ (Some ks) =>
+        (fix go (l : list mp4_atom) : Z := match l with [] => 0 | c :: r => Z.max (mp4_height c) (go r) end) ks
+      end.
+Fixpoint mp4_forest_height (l : list mp4_atom) : Z :=
+  match l with [] => 0 | c :: r => Z.max (mp4_height c) (mp4_forest_height r) end.
+Definition MP4_MAXDEPTH : Z := 65.
+
 (* pre-order list of all atoms *)
 Fixpoint mp4_flat_atom (a : mp4_atom) : list mp4_atom :=
   a :: match a with
@@ -500,7 +521,8 @@ Definition mp4_entries_in_file (f : list Z) (atoms : list mp4_atom) : bool :=
 Definition mp4_parse (f : list Z) : result (list mp4_atom) :=
   match mp4_atoms f with
   | Raise e => Raise e
-  | Ok atoms => if mp4_forest_ok f true atoms 0 (zlen f) && mp4_tables_ok f atoms && mp4_entries_in_file f atoms
+  | Ok atoms => if mp4_forest_ok f true atoms 0 (zlen f) && (mp4_forest_height atoms <=? MP4_MAXDEPTH) &&
+                   mp4_tables_ok f atoms && mp4_entries_in_file f atoms
                 then Ok atoms else Raise EMutagen
   end.
 Definition mp4_wf (f : list Z) : bool := is_ok (mp4_parse f).
